@@ -65,7 +65,7 @@ type Obs struct {
 	JobOrder  []*Job
 	Forks     map[string]*Fork
 	ByCall    map[string][]*Fork
-	fileDirs  []fileDir // canonical files dir -> token
+	fileDirs  []fileDir         // canonical files dir -> token
 	tokByPath map[string]string // uniquifier-stripped written path -> content token
 	vdrRoots  []string          // roots removed by VDR (hook trace), loaded lazily
 	vdrLoaded bool
